@@ -17,8 +17,8 @@ import vlib
 from vlib import proof_coverage
 
 LEVEL = "proof"
-PROFILES_QUICK = {"full": 150, "frag": 110, "safe": 110, "loopelse": 16, "unmodelled": 24}
-PROFILES_THOROUGH = {"full": 600, "frag": 400, "safe": 400, "loopelse": 40, "unmodelled": 60}
+PROFILES_QUICK = {"full": 130, "frag": 100, "safe": 100, "for": 60, "loopelse": 16, "unmodelled": 24}
+PROFILES_THOROUGH = {"full": 550, "frag": 350, "safe": 350, "for": 250, "loopelse": 40, "unmodelled": 60}
 SEM_QUICK, SEM_THOROUGH = 70, 300
 MAX_REPORTS = 3
 REPLAY = ("cd /verif && echo '[{\"src\": <program text as JSON string>, \"returns_none\": true}]' | "
@@ -71,7 +71,7 @@ def run(ctx):
     stat = Counter()
     diffs = []
     for i, (p, im, (flags, mo)) in enumerate(zip(progs, impl, model)):
-        p["safe"], p["frag"] = bool(flags[0]), bool(flags[1])
+        p["safe"], p["frag"], p["lsafe"] = bool(flags[0]), bool(flags[1]), bool(flags[2])
         d = tie.compare_cfg(p, im, mo)
         if d is None:
             stat["agree" if im["ok"] else "agree-rejected:" + im["err"]] += 1
@@ -109,7 +109,7 @@ def run(ctx):
                 reports += 1
                 ctx.report("safe-fragment:" + p["src"], "counterexample",
                            "the real CFG of a program inside the order_safe fragment does not behave like the Python source",
-                           {"program": p["src"], **d, "real_cfg": impl[i]["dump"], "in_proved_fragment": p["frag"], "replay": REPLAY})
+                           {"program": p["src"], **d, "real_cfg": impl[i]["dump"], "in_proved_fragment": p["frag"], "in_proved_lifted_fragment": p["lsafe"], "replay": REPLAY})
         else:
             sem_stat["differ-outside-safe-fragment(known classes: operand order, bool(and/or), chain middle twice)"] += 1
 
@@ -157,6 +157,7 @@ def run(ctx):
         rule="one evaluation = one program built by both the Coq model and the real CFGBuilder; non-trivial = accepted with at least one block besides entry/exit and CFGs equal",
         traces_validated_against_impl=len(progs) - stat["DIFFER"], tie=dict(stat),
         in_safe_fragment=sum(1 for p in progs if p.get("safe")), in_proved_fragment=sum(1 for p in progs if p.get("frag")),
+        in_proved_lifted_fragment=sum(1 for p in progs if p.get("lsafe")),
         semantic_runs=sum(len(v) for v in sem.values()), semantic=dict(sem_stat),
         construct_histogram=dict(sorted(hist.items())), samples=samples, notes=ctx.notes)
     return ctx.finish(LEVEL, cov, [
